@@ -306,6 +306,12 @@ def http01Validate (cfg : Cfg) (dbOk : Bool) (ch : Ch) (r : HttpResp) : Outcome 
 /-- `vc.LookupTxt` result: `none` = error (any class) -/
 abbrev TxtResp := Option (List Str)
 
+/-- acme/client.go `client.LookupTxt`, i.e. `net.LookupTXT`, against a name server that answers with
+    `records` (or fails): a failure, or an answer without TXT records, is an error; otherwise the
+    validator receives every record *exactly as published* — no trimming, no unquoting. -/
+def clientLookupTxt (fail : Bool) (records : List Str) : TxtResp :=
+  if fail ∨ records = [] then none else some records
+
 def dns01Validate (h : Hash) (cfg : Cfg) (dbOk : Bool) (ch : Ch) (r : TxtResp) : Outcome :=
   let t := Target.txt (dns01Name cfg ch)
   match r with
